@@ -66,7 +66,7 @@ fn tail(p: &Path, n: usize) -> String {
 
 /// Launch the real server with `config` (a TOML/YAML file) and optional extra environment.
 pub fn launch(config: &Path, port: u16, http_port: u16, envs: &[(String, String)], work: &Path) -> Launch {
-    let exe = std::env::current_exe().expect("exe");
+    let exe = vcore::par::self_exe();
     let log = work.join(format!("server-{port}.log"));
     let logf = std::fs::File::create(&log).expect("log");
     let mut cmd = Command::new(exe);
@@ -84,7 +84,7 @@ pub fn launch(config: &Path, port: u16, http_port: u16, envs: &[(String, String)
     for (k, v) in envs {
         cmd.env(k, v);
     }
-    let mut child = cmd.spawn().expect("spawn server");
+    let mut child = vcore::par::spawn_retry(&mut cmd).expect("spawn server");
     let t0 = Instant::now();
     loop {
         if let Ok(Some(st)) = child.try_wait() {
@@ -197,8 +197,8 @@ impl Client {
 
 /// Run another slice of this executable (`<exe> <slice> <tier>`) and parse its `<slice>-RESULT` line.
 pub fn run_slice(slice: &str, tier: &str) -> Result<serde_json::Value, String> {
-    let exe = std::env::current_exe().map_err(|e| format!("{e}"))?;
-    let out = Command::new(exe).arg(slice).arg(tier).output().map_err(|e| format!("{e}"))?;
+    let exe = vcore::par::self_exe();
+    let out = vcore::par::output_retry(Command::new(exe).arg(slice).arg(tier)).map_err(|e| format!("{e}"))?;
     let stdout = String::from_utf8_lossy(&out.stdout);
     let prefix = format!("{slice}-RESULT ");
     let line = stdout.lines().find_map(|l| l.strip_prefix(prefix.as_str())).ok_or_else(|| format!("no result line; exit {:?}; stderr: {}", out.status.code(), String::from_utf8_lossy(&out.stderr)))?;
